@@ -219,7 +219,8 @@ CHECKS.update({
         level="model_checking", design="6/C20",
         text="Lock.tla: 3 threads x 2 calls x 2 locks, all interleavings: MutualExclusion, NoLostUpdate, FinalCount, "
              "EveryCallReturns (liveness, weak fairness); the Exclusive = FALSE deviation violates MutualExclusion (non-"
-             "vacuity). The real StdLock is driven by 2..16 threads x up to 2000 read-modify-write closures of varying "
+             "vacuity); spec/proofs/LockProof.tla is a TLAPS proof (37 obligations) that MutualExclusion holds for any number "
+             "of threads and locks. The real StdLock is driven by 2..16 threads x up to 2000 read-modify-write closures of varying "
              "duration on 1-3 locks; events sequenced inside the closure are validated by TraceLock (Enter only when free, "
              "Read of the model's value, Return of the closure's own value, final value = number of closures, all threads join).",
         note="real schedules are sampled; exhaustive only on the model.",
